@@ -379,6 +379,15 @@ fn roundtrips<X: Sx>(ctx: &Ctx, idx: u64) {
                     Some(v2) if v2 == $v => {}
                     _ => bad(concat!($what, "/json")),
                 }
+                // decoders that cannot lend out slices of their input: a Value tree and a reader
+                match ctx.call(concat!("json-value/", $what), &case, None, || serde_json::from_value::<$t>(serde_json::to_value(&$v).unwrap())).value {
+                    Some(v2) if v2 == $v => {}
+                    _ => bad(concat!($what, "/json-value")),
+                }
+                match ctx.call(concat!("json-reader/", $what), &case, None, || serde_json::from_reader::<_, $t>(js.as_bytes())).value {
+                    Some(v2) if v2 == $v => {}
+                    _ => bad(concat!($what, "/json-reader")),
+                }
             }};
         }
         if BBSplusPublicKey::from_bytes(&pk.to_bytes()).ok().as_ref() != Some(&pk) { bad("PublicKey/octets"); }
@@ -407,6 +416,39 @@ fn roundtrips<X: Sx>(ctx: &Ctx, idx: u64) {
         let zk = BBSplusZKPoK::from_bytes(&com.to_bytes()[48..]).unwrap();
         if BBSplusZKPoK::from_bytes(&zk.to_bytes()).ok().as_ref() != Some(&zk) { bad("ZKPoK/octets"); }
         ctx.count("objects_round_tripped", 12);
+    }
+    // signature octets as an ARGUMENT (proof_gen / blind_proof_gen take a slice): only the exact 80 octets are a signature
+    {
+        let (sk, pk) = keypair::<X>(&mut r);
+        let msgs = gen_messages(&mut r, 2, 0);
+        let sig = Sig::<X>::sign(Some(&msgs), &sk, &pk, None).unwrap().to_bytes();
+        let bsig = BSig::<X>::blind_sign(&sk, &pk, None, None, Some(&msgs)).unwrap().to_bytes();
+        let case = format!("{}/signature-argument", name::<X>());
+        ctx.distinct(&case);
+        let mut variants: Vec<(String, Vec<u8>, Vec<u8>)> = vec![];
+        for k in [1usize, 2, 16, 32, 48, 80] {
+            variants.push((format!("trailing{k}"), [&sig[..], &vec![0u8; k][..]].concat(), [&bsig[..], &vec![0u8; k][..]].concat()));
+            variants.push((format!("trailing-random{k}"), [&sig[..], &rand_bytes(&mut r, k)[..]].concat(), [&bsig[..], &rand_bytes(&mut r, k)[..]].concat()));
+            variants.push((format!("truncated{k}"), sig[..80 - k].to_vec(), bsig[..80 - k].to_vec()));
+            variants.push((format!("leading{k}"), [&vec![0u8; k][..], &sig[..]].concat(), [&vec![0u8; k][..], &bsig[..]].concat()));
+        }
+        for (nm, s1, s2) in variants {
+            let o = ctx.call("proof_gen", &case, None, || Pok::<X>::proof_gen(&pk, &s1, None, None, Some(&msgs), Some(&[0])));
+            if o.outcome.is_ok() {
+                ctx.violation("C09:forbidden-accepted/Signature-argument/proof_gen", json!({"case":case,"variant":nm,"octets":hx_full(&s1)}));
+            }
+            let o = ctx.call("blind_proof_gen", &case, None, || Pok::<X>::blind_proof_gen(&pk, &s2, None, None, Some(&msgs), None, Some(&[0]), None, None));
+            if o.outcome.is_ok() {
+                ctx.violation("C09:forbidden-accepted/Signature-argument/blind_proof_gen", json!({"case":case,"variant":nm,"octets":hx_full(&s2)}));
+            }
+        }
+        // control: the exact octets are accepted
+        if !ctx.call("proof_gen", &case, None, || Pok::<X>::proof_gen(&pk, &sig, None, None, Some(&msgs), Some(&[0]))).outcome.is_ok() {
+            ctx.inconclusive("C09: proof_gen refused an honest signature (C03's business)");
+        }
+        if !ctx.call("blind_proof_gen", &case, None, || Pok::<X>::blind_proof_gen(&pk, &bsig, None, None, Some(&msgs), None, Some(&[0]), None, None)).outcome.is_ok() {
+            ctx.inconclusive("C09: blind_proof_gen refused an honest blind signature (C05's business)");
+        }
     }
     // volume: many distinct objects through the octet codecs only (value shapes that occur once in a few hundred objects)
     let (sk, pk) = keypair::<X>(&mut r);
